@@ -85,7 +85,8 @@ def compare(text, ordered, kw, state, limit_mode=None):
             if m_:
                 al = m_.group(1)
                 sql_ = msg.split('): ', 1)[-1]
-                if re.search(rf'\bAS {al}\b', text) and f'AS "{al}"' not in sql_:
+                # (aliases are also written without AS: the name qualifies a column somewhere in the statement, and the fetch itself does not define it)
+                if re.search(rf'(?i)\b{al}\.', text) and f'AS "{al}"' not in sql_:
                     # executable model of C08-F6: the name is an alias of the ENCLOSING query, left in a sub-query that was planned as a fetch of its own
                     kind = 'fetch-of-a-correlated-subquery-with-its-outer-reference'
             return 'differ', {'kind': kind, 'expected': exp, 'got': msg[:300], 'log': log, 'plan': plan}
@@ -300,6 +301,9 @@ def run_shard(ctx):
         elif i % 10 == 7:
             text, ordered, feats = fedgen.star_query(r), False, {'star-over-nested'}
             acc.count('star_shapes')
+        elif i % 20 == 5:
+            text, ordered, feats = fedgen.const_first(r), False, {'value-first-comparison'}
+            acc.count('const_first_shapes')
         elif i % 10 == 8:
             text, ordered, feats = fedgen.isnull_outer(r), False, {'isnull-under-outer-join'}
             acc.count('isnull_outer_shapes')
